@@ -468,6 +468,61 @@ def r78(rep: Report, ctx: Ctx) -> None:
                        and len(c.args) == len(fields), fi=fi, node=c,
                        detail=f"{pairs}" + (f" -- role crossed: {bad}"
                                             if bad else ""))
+    # (d) set-valued arguments built from several components, and locals
+    # named after one component: the roles of the Loop fields that are read
+    # directly must be the roles the receiving name announces
+    RW = ("start", "end", "break")
+
+    def roles_of_name(nm: str) -> set[str]:
+        parts = nm.lower().split("_")
+        return {r for r in RW if any(p_.startswith(r) for p_ in parts)}
+
+    def roles_read(e: ast.AST) -> set[str]:
+        out = set()
+        for x in ast.walk(e):
+            if isinstance(x, ast.Attribute) and x.attr in (
+                    "start_events", "end_events", "break_events"):
+                out.add(x.attr.split("_")[0])
+        return out
+    for m in mods:
+        for fi in list(m.functions.values()):
+            for site in ctx.cg.sites_in(fi):
+                c = site.node
+                if not isinstance(c, ast.Call) or len(site.callees) != 1:
+                    continue
+                callee = site.callees[0]
+                if ".loop_detection." not in callee.module.name:
+                    continue
+                params = [p_ for p_ in callee.params() if p_ != "self"]
+                for a, p_ in zip(c.args, params):
+                    if not isinstance(a, ast.BinOp):
+                        continue
+                    want, got = roles_of_name(p_), roles_read(a)
+                    if want and got:
+                        n += 1
+                        rep.ob("R7.8", f"{fi.short} -> {callee.short}"
+                               f"({p_})", got == want, fi=fi, node=c,
+                               detail=f"parameter '{p_}' announces "
+                                      f"{sorted(want)}, the argument "
+                                      f"'{unparse(a)[:60]}' reads "
+                                      f"{sorted(got)}")
+            for st in ast.walk(fi.node):
+                if isinstance(st, ast.Assign) and len(st.targets) == 1 \
+                        and isinstance(st.targets[0], ast.Name):
+                    want = roles_of_name(st.targets[0].id)
+                    got = roles_read(st.value)
+                    derived = any(
+                        isinstance(x, ast.Call) and any(
+                            sx.node is x and sx.callees
+                            for sx in ctx.cg.sites_in(fi))
+                        for x in ast.walk(st.value))
+                    if len(want) >= 1 and got and not derived:
+                        n += 1
+                        rep.ob("R7.8", f"{fi.short}: {st.targets[0].id}",
+                               got <= want, fi=fi, node=st,
+                               detail=f"'{st.targets[0].id}' announces "
+                                      f"{sorted(want)}, its definition reads "
+                                      f"{sorted(got)} of the Loop record")
     rep.analysed["handoffs_checked"] = n
 
 
